@@ -20,6 +20,9 @@ pub enum DStep {
     User(Option<Vec<AWord>>),
     Map { ll: Vec<u32>, rl: Vec<u32> },
     WriteRead,
+    /// the reorder tool followed by the map tool: connection-id statistics over training
+    /// sentences, then the dictionary is remapped with the two orders they yield
+    Reorder { sents: Vec<Vec<u32>> },
 }
 
 #[derive(Clone, Debug)]
@@ -42,6 +45,7 @@ impl DStep {
             DStep::User(None) => json!({"step": "user", "rows": null}),
             DStep::Map { ll, rl } => json!({"step": "map", "ll": ll, "rl": rl}),
             DStep::WriteRead => json!({"step": "wr"}),
+            DStep::Reorder { sents } => json!({"step": "reorder", "sents": sents}),
         }
     }
     pub fn from_json(v: &Value) -> DStep {
@@ -58,6 +62,7 @@ impl DStep {
                 }
             }
             "map" => DStep::Map { ll: seq(&v["ll"]), rl: seq(&v["rl"]) },
+            "reorder" => DStep::Reorder { sents: v["sents"].as_array().unwrap().iter().map(seq).collect() },
             _ => DStep::WriteRead,
         }
     }
@@ -153,6 +158,7 @@ fn apply(dict: Dictionary, step: &DStep, log: &mut Vec<Value>, quiet: bool) -> R
             }
             r.map_err(|_| ())
         }
+        DStep::Reorder { .. } => unreachable!("translated to Map by the caller"),
         DStep::WriteRead => {
             let (ret, bytes) = write_bytes(&dict);
             let r = Dictionary::read(bytes.as_slice());
@@ -204,6 +210,32 @@ fn probe(dict: Dictionary, ds: &DictSession, out: &mut Vec<Value>) -> Vec<Value>
     out[start..].iter().filter(|e| e["ev"] == "tok").map(|e| e["toks"].clone()).collect()
 }
 
+/// What `reorder` does: statistics over the training sentences, then the two id orders.
+fn reorder(dict: Dictionary, ds: &DictSession, sents: &[Vec<u32>], out: &mut Vec<Value>) -> (Vec<u32>, Vec<u32>) {
+    let tok = Tokenizer::new(dict);
+    let tok = match tok.ignore_space(ds.isp) {
+        Ok(t) => t,
+        Err(_) => return (vec![], vec![]),
+    };
+    let tok = tok.max_grouping_len(ds.mgl);
+    let mut ops = vec![Op::CInit { w: 2 }];
+    for s in sents {
+        ops.push(Op::Reset { w: 2, s: s.clone() });
+        ops.push(Op::Tok { w: 2 });
+        ops.push(Op::CUpd { w: 2 });
+    }
+    ops.push(Op::Probs { w: 2 });
+    let start = out.len();
+    run_ops(&tok, 2, &ops, false, 0, out);
+    for e in out[start..].iter() {
+        if e["ev"] == "probs" {
+            let seq = |x: &Value| -> Vec<u32> { x.as_array().map(|a| a.iter().map(|c| c.as_u64().unwrap() as u32).collect()).unwrap_or_default() };
+            return (seq(&e["lo"]), seq(&e["ro"]));
+        }
+    }
+    (vec![], vec![])
+}
+
 pub fn run_dict_session(ds: &DictSession, out: &mut Vec<Value>) {
     let r = catch_unwind(AssertUnwindSafe(|| {
         let mut log = vec![];
@@ -222,7 +254,15 @@ pub fn run_dict_session(ds: &DictSession, out: &mut Vec<Value>) {
         log.push(json!({"ev": "proj", "p": project(&dict)}));
         let mut oks: Vec<bool> = vec![];
         let mut prev = probe(materialize(&d0, &ds.steps[..0], &oks), ds, &mut log);
-        for (i, step) in ds.steps.iter().enumerate() {
+        let mut steps: Vec<DStep> = ds.steps.clone();
+        for i in 0..steps.len() {
+            if let DStep::Reorder { sents } = &steps[i] {
+                // the reorder tool on a copy of the current dictionary (worker 2 in the log)
+                let copy = materialize(&d0, &steps[..i], &oks);
+                let (lo, ro) = reorder(copy, ds, sents, &mut log);
+                steps[i] = DStep::Map { ll: lo, rl: ro };
+            }
+            let step = &steps[i];
             match apply(dict, step, &mut log, false) {
                 Ok(d) => {
                     dict = d;
@@ -230,11 +270,11 @@ pub fn run_dict_session(ds: &DictSession, out: &mut Vec<Value>) {
                 }
                 Err(()) => {
                     oks.push(false);
-                    dict = materialize(&d0, &ds.steps[..=i], &oks);
+                    dict = materialize(&d0, &steps[..=i], &oks);
                 }
             }
             log.push(json!({"ev": "proj", "p": project(&dict)}));
-            let cur = probe(materialize(&d0, &ds.steps[..=i], &oks), ds, &mut log);
+            let cur = probe(materialize(&d0, &steps[..=i], &oks), ds, &mut log);
             if let (DStep::Map { ll, rl }, true) = (step, oks[i]) {
                 for (k, s) in ds.probes.iter().enumerate() {
                     if k < prev.len() && k < cur.len() {
@@ -356,7 +396,7 @@ pub fn gen_user_rows(rng: &mut Rng, d: &ADict, bad: bool) -> Vec<AWord> {
     rows
 }
 
-pub fn gen_dict_session(rng: &mut Rng, kind: u8, max_len: usize, nsteps: usize) -> DictSession {
+pub fn gen_dict_session(rng: &mut Rng, kind: u8, max_len: usize, nsteps: usize, reorder_mode: bool) -> DictSession {
     let cfg = GenCfg { conn_kind: kind, allow_user: false, ..Default::default() };
     let d = gen_dict(rng, &cfg);
     let isp = d.space_cat() >= 0 && rng.chance(1, 3);
@@ -364,6 +404,19 @@ pub fn gen_dict_session(rng: &mut Rng, kind: u8, max_len: usize, nsteps: usize) 
     let mut steps = vec![];
     let n = 1 + rng.below(nsteps);
     for _ in 0..n {
+        if reorder_mode && rng.chance(1, 2) {
+            let k = rng.below(5);
+            let mut sents: Vec<Vec<u32>> = (0..k).map(|_| gen_sentence(rng, &d, max_len)).collect();
+            if rng.chance(1, 3) {
+                sents.insert(0, vec![]);            // an empty first line
+            }
+            if rng.chance(1, 3) && !sents.is_empty() {
+                let s = sents[0].clone();
+                sents.push(s);                      // a repeated line
+            }
+            steps.push(DStep::Reorder { sents });
+            continue;
+        }
         steps.push(match rng.below(10) {
             0..=2 => DStep::User(Some(gen_user_rows(rng, &d, false))),
             3 => DStep::User(Some(gen_user_rows(rng, &d, true))),
@@ -406,12 +459,13 @@ pub fn record(a: &HashMap<String, String>) -> i32 {
     let max_len: usize = a.get("maxlen").and_then(|s| s.parse().ok()).unwrap_or(8);
     let nsteps: usize = a.get("steps").and_then(|s| s.parse().ok()).unwrap_or(4);
     let out = a.get("out").expect("--out");
+    let reorder_mode = a.get("reorder").map(|s| s == "1").unwrap_or(false);
     let mut rng = Rng::new(seed ^ 0xD1C7);
     let mut evs = vec![];
     let mut ins = vec![];
     for _ in 0..n {
         let mut r = rng.fork();
-        let ds = gen_dict_session(&mut r, kind, max_len, nsteps);
+        let ds = gen_dict_session(&mut r, kind, max_len, nsteps, reorder_mode);
         run_dict_session(&ds, &mut evs);
         ins.push(ds.to_json());
     }
